@@ -128,7 +128,15 @@ claim("C05",
       "AgentManager.Deliver, bundleDeletion, dispatching, bundleContraindicated are assumed summaries.",
       "DESIGN.md §6 C05, §11.4")
 
-for pid in ["C09","C20"]:
+claim("C20",
+      "Link-state replacement is strictly-newer-timestamp (ShouldReplace) and DTLSR.NotifyNewBundle compares the received data with the stored record of the same sender; newNode gives an id exactly one vertex, never renumbers tracked ids and keeps "
+      "the vertex list as long as the vertex counter; NotifyNewBundle calls newNode for every node named by accepted data (map-range loops with invariants; the 'every named node is tracked' invariant over the visited set in the thorough tier); "
+      "SenderForBundle hands a unicast bundle only to the connected sender whose peer equals the routing table's next hop for the destination and then releases it, and selects nobody without a table entry.",
+      "Partial: computeRoutingTable (edge costs, table extraction) and the third-party Dijkstra implementation are not under contract - 'next hop lies on a minimum-cost path' is not decided; peer appear/disappear/purge bookkeeping, "
+      "the broadcast branch (filterCLAs precondition on the store item) and concurrency between cron jobs are not decided; range over a map is assumed to visit every key that stays in the map.",
+      "DESIGN.md §6 C20, §11.4")
+
+for pid in ["C09"]:
     na(pid, UNBUILT)
 na("C08", "Durability across restarts/crash points and concurrent pushes are history properties of badgerhold/gob/the file system; "
           "the in-repo code is a thin reflection-driven wrapper; no function contract within reach can express or decide them (DESIGN.md §7).")
